@@ -27,11 +27,13 @@ import (
 	"io"
 	"io/fs"
 	"os"
+	"os/exec"
 	"path/filepath"
 	"reflect"
 	"sort"
 	"strconv"
 	"strings"
+	"testing/fstest"
 	"time"
 
 	"github.com/opencontainers/go-digest"
@@ -48,12 +50,16 @@ var ctx = context.Background()
 // tag names: sorted (Go string order) so that the pool index order is the order
 // in which Tags() must list them.  None of them is a digest string of a node.
 var tagPool = func() []string {
-	p := []string{"latest", "v1", "v1.0", "a tag with spaces", "<a&b>\"q\"", "sha256:abc", "ünï/çødé:tag", "UPPER_lower-0.9"}
+	p := []string{"latest", "v1", "v1.0", "a tag with spaces", "<a&b>\"q\"", "sha256:abc", "ünï/çødé:tag", "UPPER_lower-0.9",
+		"long-" + strings.Repeat("x", 300), "ctl\ttab\nnewline\x01\x7f", "\u2028sep\u00a0nbsp\U0001F600"}
 	sort.Strings(p)
 	return p
 }()
 
-const nExtra = 5
+const nExtra = 7
+
+// a reference name that is not valid UTF-8 (op token B): encoding/json cannot store it
+const badUTF8Name = "bad\xffutf8\xc0"
 
 // Tags(last): two cursors, a pool name and a string that is no tag; lastFrom[i] is the pool
 // index of the first name greater than lastNames[i]
@@ -86,6 +92,12 @@ func applyExtra(d ocispec.Descriptor, x int) ocispec.Descriptor {
 	case 4:
 		d.Annotations = map[string]string{"org.opencontainers.image.title": "t.txt"}
 		d.URLs = []string{"https://example.invalid/x?a=1&b=2"}
+	case 5:
+		d.Data = []byte("verif-embedded-data\x00\xff")
+		d.Platform = &ocispec.Platform{Architecture: "arm", OS: "linux", Variant: "v7", OSVersion: "10.0", OSFeatures: []string{"win32k"}}
+	case 6: // empty, non-nil containers: the same JSON as variant 0
+		d.Annotations = map[string]string{}
+		d.URLs = []string{}
 	}
 	return d
 }
@@ -94,7 +106,9 @@ type history struct {
 	AutoSave bool          `json:"autosave"`
 	AutoGC   bool          `json:"autogc"`
 	Graph    []dag.Encoded `json:"graph"`
-	SHA512   []int         `json:"sha512"` // nodes addressed by sha512 digests
+	SHA512   []int         `json:"sha512"`          // nodes addressed by sha512 digests
+	Bad      []int         `json:"bad,omitempty"`   // nodes with a manifest media type whose bytes are no JSON
+	Holey    int           `json:"holey,omitempty"` // node with a long run of zeros (0 = none; node 0 is never it)
 	Ops      []string      `json:"ops"`
 	Meta     string        `json:"meta,omitempty"`
 }
@@ -153,6 +167,7 @@ type world struct {
 	g      *dag.Graph
 	byDgst map[digest.Digest]int
 	tagIdx map[string]int
+	bad    map[int]bool
 }
 
 func newWorld(g *dag.Graph) *world {
@@ -213,14 +228,15 @@ func (w *world) classify(d ocispec.Descriptor) (string, string) {
 		rest[a] = v
 	}
 	d.Annotations = normAnn(rest)
+	// descriptors are compared as JSON documents (empty and absent containers are one value)
+	js, _ := json.Marshal(d)
 	for x := 0; x < nExtra; x++ {
 		e := applyExtra(w.g.Nodes[k].Desc, x)
 		e.Annotations = normAnn(e.Annotations)
-		if reflect.DeepEqual(e, d) {
+		if ej, _ := json.Marshal(e); bytes.Equal(ej, js) {
 			return fmt.Sprintf("%d.%d", k, x), ann
 		}
 	}
-	js, _ := json.Marshal(d)
 	return fmt.Sprintf("%d.?%s", k, common.Hex(string(js))), ann
 }
 
@@ -360,6 +376,20 @@ func validateLayout(dir string, ignore map[string]bool) (bool, [][2]string) {
 	if dec.More() {
 		add("layout-index-parse", "index.json has trailing data")
 	}
+	// nothing but the layout: no temporary files of interrupted or finished writes
+	if top, err := os.ReadDir(dir); err == nil {
+		for _, e := range top {
+			switch e.Name() {
+			case "oci-layout", "index.json", "blobs":
+			case "ingest":
+				if left, _ := os.ReadDir(filepath.Join(dir, "ingest")); len(left) > 0 {
+					add("layout-leftover-file", fmt.Sprintf("ingest/ holds %d file(s) at a quiescent point, e.g. %s", len(left), left[0].Name()))
+				}
+			default:
+				add("layout-leftover-file", "unexpected entry in the layout directory: "+e.Name())
+			}
+		}
+	}
 	// blobs: name = digest of bytes
 	sizes := map[string]int64{}
 	blobsDir := filepath.Join(dir, "blobs")
@@ -419,7 +449,46 @@ func validateLayout(dir string, ignore map[string]bool) (bool, [][2]string) {
 //	3 GNU format (long names through ././@LongLink)
 //	4 like 0, preceded by stale copies of index.json and oci-layout (appended archives: the last entry wins)
 //	5 like 1 with "//" and "/./" inside names (path.Clean)
+//
+// styles 6.. are archives made by the tar tools of the machine (GNU tar, bsdtar): default
+// formats and sparse members (-S; zero runs found by reading) in PAX 1.0, PAX 0.1 and old GNU
+// form.  A missing tool is a failure of the run, not a silent pass.
+const nTarStyles = 11
+
+var toolArgs = map[int][]string{
+	6:  {"tar", "--format=gnu"},
+	7:  {"tar", "-S", "--hole-detection=raw", "--format=posix"},
+	8:  {"tar", "-S", "--hole-detection=raw", "--format=posix", "--sparse-version=0.1"},
+	9:  {"tar", "-S", "--hole-detection=raw", "--format=gnu"},
+	10: {"bsdtar"},
+}
+
+func writeTarTool(dir, out string, style int) error {
+	a := toolArgs[style]
+	src := dir
+	if a[0] == "bsdtar" {
+		// bsdtar finds holes with lseek: archive a copy whose zero runs are real holes
+		src = out + ".copy"
+		os.RemoveAll(src)
+		if o, err := exec.Command("cp", "-a", "--sparse=always", dir, src).CombinedOutput(); err != nil {
+			return fmt.Errorf("cp --sparse: %v %s", err, o)
+		}
+		defer os.RemoveAll(src)
+	}
+	args := append(append([]string{}, a[1:]...), "-cf", out, "-C", src, "--exclude=./ingest", ".")
+	cmd := exec.Command(a[0], args...)
+	cmd.Env = append(os.Environ(), "LC_ALL=C")
+	if o, err := cmd.CombinedOutput(); err != nil {
+		return fmt.Errorf("%s %v: %v %s", a[0], args, err, o)
+	}
+	run.Count(fmt.Sprintf("tar:style%d(%s)", style, strings.Join(a, "_")))
+	return nil
+}
+
 func writeTar(dir, out string, style int) error {
+	if style >= 6 {
+		return writeTarTool(dir, out, style)
+	}
 	f, err := os.Create(out)
 	if err != nil {
 		return err
@@ -513,6 +582,35 @@ type runner struct {
 	failed map[string]bool
 	hung   bool
 	strays []strayFile // files put under blobs/ that are no content of the store
+	// watchdog confirmation run / case without verdict (timeout not confirmed)
+	confirming, dropped bool
+	// a descriptor that does not describe the stored content was passed (outside the property)
+	unjudged bool
+	autogc   bool // current value of Store.AutoGC
+}
+
+const gcWatchdog = 300 * time.Second
+
+// confirmHang drives a fresh store through the history so far (check points left out);
+// true if its last operation (the GC) times out again.
+func (r *runner) confirmHang() bool {
+	h := *r.h
+	ops := h.Ops
+	h.Ops = nil
+	c := newRunner(&h)
+	c.confirming = true
+	defer os.RemoveAll(filepath.Dir(c.dir))
+	for _, op := range ops {
+		if op[0] == 'C' {
+			continue
+		}
+		c.h.Ops = append(c.h.Ops, op)
+		c.exec(op)
+		if c.hung {
+			return true
+		}
+	}
+	return false
 }
 
 type strayFile struct {
@@ -521,6 +619,9 @@ type strayFile struct {
 }
 
 func (r *runner) fail(sig, msg string) {
+	if r.unjudged && sig != "gc-hang" {
+		return
+	}
 	if r.failed[sig] {
 		return
 	}
@@ -535,7 +636,7 @@ func (r *runner) open() error {
 		return err
 	}
 	s.AutoSaveIndex = r.h.AutoSave
-	s.AutoGC = r.h.AutoGC
+	s.AutoGC = r.autogc
 	r.store = s
 	return nil
 }
@@ -550,10 +651,29 @@ func (r *runner) exec(op string) string {
 	g := r.w.g
 	arg := op[1:]
 	switch op[0] {
-	case 'P':
-		k, _ := strconv.Atoi(arg)
+	case 'P', 'Q': // Q: the pushed descriptor carries annotations etc. (and maybe a ref name)
+		f := strings.Split(arg, ":")
+		k, _ := strconv.Atoi(f[0])
 		n := g.Nodes[k]
-		res := errTok(r.store.Push(ctx, n.Desc, bytes.NewReader(n.Bytes)))
+		pd := n.Desc
+		if op[0] == 'Q' {
+			x, _ := strconv.Atoi(f[1])
+			pd = applyExtra(n.Desc, x)
+			if f[2] != "-" {
+				a, _ := strconv.Atoi(f[2])
+				ann := map[string]string{}
+				for kk, v := range pd.Annotations {
+					ann[kk] = v
+				}
+				ann[ocispec.AnnotationRefName] = tagPool[a]
+				pd.Annotations = ann
+			}
+		}
+		err := r.store.Push(ctx, pd, bytes.NewReader(n.Bytes))
+		res := errTok(err)
+		if err != nil && r.w.bad[k] && !errors.Is(err, errdef.ErrAlreadyExists) {
+			res = "badcontent" // content.Successors cannot decode the manifest
+		}
 		if !r.h.AutoSave && res == "ok" && n.IsManifest() {
 			r.synced = false
 		}
@@ -573,7 +693,16 @@ func (r *runner) exec(op string) string {
 			d.Annotations = ann
 		}
 		ref := d.Digest.String()
-		if f[3] != "d" {
+		if f[3] == "B" {
+			ref = badUTF8Name
+		} else if f[3][0] == 'D' { // the digest string of other content (node j; j = #nodes: a digest of nothing)
+			j, _ := strconv.Atoi(f[3][1:])
+			if j < len(g.Nodes) {
+				ref = g.Nodes[j].Desc.Digest.String()
+			} else {
+				ref = digest.FromString("outside the universe").String()
+			}
+		} else if f[3] != "d" {
 			t, _ := strconv.Atoi(f[3])
 			ref = tagPool[t]
 		}
@@ -612,11 +741,17 @@ func (r *runner) exec(op string) string {
 				r.synced = false
 			}
 			return errTok(err)
-		case <-time.After(300 * time.Second):
-			// GC works for milliseconds; the bound is this generous because a loaded machine
-			// stalled a run for more than 20 s once (no wall-clock false alarms)
+		case <-time.After(gcWatchdog):
+			// GC works for milliseconds; the bound is generous because a loaded machine
+			// stalled a run for more than 20 s once, and a timeout is only reported when
+			// a fresh store driven through the same history times out again
 			r.hung = true
-			r.fail("gc-hang", "GC did not return within 300 s")
+			if !r.confirming && r.confirmHang() {
+				r.fail("gc-hang", fmt.Sprintf("GC did not return within %v, twice (fresh store, same history)", gcWatchdog))
+			} else if !r.confirming {
+				run.Count("gc-watchdog-fired-not-confirmed(case dropped)")
+				r.dropped = true
+			}
 			return "hang"
 		}
 	case 'S':
@@ -636,6 +771,25 @@ func (r *runner) exec(op string) string {
 		return "ok"
 	case 'C':
 		return r.checkpoint()
+	case 'A': // assignment to the public field
+		r.autogc = arg == "1"
+		r.store.AutoGC = r.autogc
+		return "ok"
+	case 'W', 'M': // Tag with a descriptor of the wrong size / another media type: not judged
+		f := strings.Split(arg, ":")
+		k, _ := strconv.Atoi(f[0])
+		t, _ := strconv.Atoi(f[1])
+		d := g.Nodes[k].Desc
+		if op[0] == 'W' {
+			d.Size += 1 + int64(t)
+		} else if d.MediaType == "application/octet-stream" {
+			d.MediaType = ocispec.MediaTypeImageManifest
+		} else {
+			d.MediaType = "application/octet-stream"
+		}
+		r.unjudged = true
+		r.synced = false
+		return errTok(r.store.Tag(ctx, d, tagPool[t]))
 	case 'I': // node bytes written as a blob file behind the store's back
 		k, _ := strconv.Atoi(arg)
 		n := g.Nodes[k]
@@ -688,13 +842,37 @@ func (r *runner) checkpoint() string {
 	ways := []way{
 		{"oci.New", func() (target, error) { return oci.New(r.dir) }},
 		{"NewFromFS(os.DirFS)", func() (target, error) { return oci.NewFromFS(ctx, os.DirFS(r.dir)) }},
-		{"NewFromTar", func() (target, error) {
-			if err := writeTar(r.dir, tarPath, len(r.h.Ops)%6); err != nil {
+		{"NewFromFS(fstest.MapFS)", func() (target, error) {
+			m := fstest.MapFS{}
+			err := filepath.WalkDir(r.dir, func(p string, d fs.DirEntry, err error) error {
+				if err != nil || d.IsDir() {
+					return err
+				}
+				rel, _ := filepath.Rel(r.dir, p)
+				data, err := os.ReadFile(p)
+				if err != nil {
+					return err
+				}
+				m[filepath.ToSlash(rel)] = &fstest.MapFile{Data: data, Mode: 0o444}
+				return nil
+			})
+			if err != nil {
 				panic(err)
+			}
+			return oci.NewFromFS(ctx, m)
+		}},
+		{"NewFromTar", func() (target, error) {
+			style := len(r.h.Ops) % nTarStyles
+			if err := writeTar(r.dir, tarPath, style); err != nil {
+				panic(err)
+			}
+			if style >= 7 && r.h.Holey > 0 && r.present(r.h.Holey) {
+				run.Count("tar:sparse-member-archived")
 			}
 			return oci.NewFromTar(ctx, tarPath)
 		}},
 	}
+	indexBefore, _ := os.ReadFile(filepath.Join(r.dir, "index.json"))
 	// ground truth for predecessors: stored manifests that list the node
 	var truth []string
 	for _, n := range w.g.Nodes {
@@ -753,6 +931,9 @@ func (r *runner) checkpoint() string {
 		}
 	}
 	os.Remove(tarPath)
+	if after, _ := os.ReadFile(filepath.Join(r.dir, "index.json")); !bytes.Equal(after, indexBefore) {
+		r.fail("reopen-rewrites-index", fmt.Sprintf("opening the directory changed index.json: %q -> %q", indexBefore, after))
+	}
 	ignore := map[string]bool{}
 	var xs []string
 	for _, st := range r.strays {
@@ -845,7 +1026,9 @@ func (r *runner) do(op string) {
 	r.h.Ops = append(r.h.Ops, op) // before exec: a replay written by the oracle includes the failing check point
 	res := r.exec(op)
 	r.out = append(r.out, res)
-	if op[0] == 'X' {
+	if op[0] == 'W' || op[0] == 'M' {
+		run.Count("unjudged:tag-with-inconsistent-descriptor(" + op[:1] + ")")
+	} else if op[0] == 'X' {
 		run.Count("op:X" + op[1:2])
 	} else if op[0] != 'C' {
 		run.Count("op:" + op[:1] + ":" + strings.SplitN(res, ":", 2)[0])
@@ -898,6 +1081,12 @@ func (r *runner) generate(rnd *common.Rand, nops int) {
 						r.do(fmt.Sprintf("P%d", i))
 					}
 				}
+			} else if rnd.Chance(1, 6) {
+				a := "-"
+				if rnd.Chance(1, 4) {
+					a = strconv.Itoa(rnd.Intn(len(tagPool)))
+				}
+				r.do(fmt.Sprintf("Q%d:%d:%s", k, 1+rnd.Intn(nExtra-1), a))
 			} else {
 				r.do(fmt.Sprintf("P%d", k))
 			}
@@ -918,6 +1107,15 @@ func (r *runner) generate(rnd *common.Rand, nops int) {
 			ref := strconv.Itoa(t)
 			if rnd.Chance(1, 10) {
 				ref = "d"
+			} else if rnd.Chance(1, 25) {
+				ref = "B"
+				run.Count("tag:invalid-utf8-reference")
+			} else if rnd.Chance(1, 12) {
+				j := rnd.Intn(len(g.Nodes) + 1)
+				if j != k {
+					ref = fmt.Sprintf("D%d", j)
+					run.Count("tag:foreign-digest-reference")
+				}
 			}
 			r.do(fmt.Sprintf("T%d:%d:%s:%s", k, x, a, ref))
 		case c < 69: // untag
@@ -942,7 +1140,7 @@ func (r *runner) generate(rnd *common.Rand, nops int) {
 				if p, ok := pickPresent(); ok && rnd.Chance(4, 5) {
 					k = p
 				}
-				if r.h.AutoGC {
+				if r.autogc {
 					for _, p := range g.Preds(k) {
 						if g.Nodes[p].Subject == k && r.present(p) {
 							run.Count("delete:autogc-with-stored-referrer")
@@ -964,6 +1162,16 @@ func (r *runner) generate(rnd *common.Rand, nops int) {
 		case c < 90: // reopen read-write (only when index.json is current)
 			if r.synced {
 				r.do("R")
+			}
+		case c < 91 && rnd.Chance(1, 3): // AutoGC is a public field
+			if r.autogc {
+				r.do("A0")
+			} else {
+				r.do("A1")
+			}
+		case c < 91 && rnd.Chance(1, 4): // caller inconsistency (not judged, must not crash or hang)
+			if p, ok := pickPresent(); ok {
+				r.do(fmt.Sprintf("%s%d:%d", common.Pick(rnd, []string{"W", "M"}), p, rnd.Intn(len(tagPool))))
 			}
 		case c < 92: // a layer appears in blobs/ without Push
 			var ls []int
@@ -988,6 +1196,15 @@ func (r *runner) generate(rnd *common.Rand, nops int) {
 		r.do("S")
 	}
 	r.do("C")
+}
+
+func isBad(h *history, k int) bool {
+	for _, b := range h.Bad {
+		if b == k {
+			return true
+		}
+	}
+	return false
 }
 
 func caseLine(h *history, g *dag.Graph) string {
@@ -1019,6 +1236,11 @@ func caseLine(h *history, g *dag.Graph) string {
 		default:
 			fl += "-"
 		}
+		if isBad(h, n.ID) {
+			fl += "x"
+		} else {
+			fl += "-"
+		}
 		su := "-"
 		if len(n.Succ) > 0 {
 			ss := make([]string, len(n.Succ))
@@ -1045,7 +1267,12 @@ func newRunner(h *history) *runner {
 	if err != nil {
 		panic(err)
 	}
-	r := &runner{h: h, w: newWorld(g), dir: filepath.Join(dir, "layout"), synced: true, truth: true,
+	w := newWorld(g)
+	w.bad = map[int]bool{}
+	for _, b := range h.Bad {
+		w.bad[b] = true
+	}
+	r := &runner{h: h, w: w, autogc: h.AutoGC, dir: filepath.Join(dir, "layout"), synced: true, truth: true,
 		id: run.NewID(), failed: map[string]bool{}}
 	if err := r.open(); err != nil {
 		panic(err)
@@ -1055,6 +1282,10 @@ func newRunner(h *history) *runner {
 
 func (r *runner) finish() {
 	g := r.w.g
+	if r.dropped {
+		os.RemoveAll(filepath.Dir(r.dir))
+		return
+	}
 	run.Case(r.id, caseLine(r.h, g), strings.Join(r.out, " "))
 	os.RemoveAll(filepath.Dir(r.dir))
 	os.Remove(r.dir + ".tar")
@@ -1097,6 +1328,28 @@ func generateHistory(seed uint64, index int, thorough bool) {
 		g.Nodes = append(g.Nodes, &dag.Node{ID: id, Kind: dag.KBlob, Bytes: bts, Subject: -1, TwinOf: -1,
 			Desc: ocispec.Descriptor{MediaType: ocispec.MediaTypeImageLayer, Digest: digest.SHA512.FromBytes(bts), Size: int64(len(bts))}})
 		h.SHA512 = append(h.SHA512, id)
+	}
+	// a blob with a manifest media type that is no JSON manifest, and an index listing it
+	if rnd.Chance(1, 4) {
+		id := len(g.Nodes)
+		bts := []byte(fmt.Sprintf("{not a manifest %x", rnd.U64()))
+		bad := &dag.Node{ID: id, Kind: dag.KImage, Bytes: bts, Subject: -1, TwinOf: -1,
+			Desc: ocispec.Descriptor{MediaType: ocispec.MediaTypeImageManifest, Digest: digest.FromBytes(bts), Size: int64(len(bts))}}
+		ix := ocispec.Index{MediaType: ocispec.MediaTypeImageIndex, Manifests: []ocispec.Descriptor{bad.Desc}}
+		ix.SchemaVersion = 2
+		ib, _ := json.Marshal(ix)
+		g.Nodes = append(g.Nodes, bad, &dag.Node{ID: id + 1, Kind: dag.KIndex, Bytes: ib, Succ: []int{id}, Subject: -1, TwinOf: -1,
+			Desc: ocispec.Descriptor{MediaType: ocispec.MediaTypeImageIndex, Digest: digest.FromBytes(ib), Size: int64(len(ib))}})
+		h.Bad = append(h.Bad, id)
+	}
+	// a layer with a long run of zero bytes: real tar tools store it as a sparse member
+	if rnd.Chance(1, 3) {
+		id := len(g.Nodes)
+		bts := append([]byte(fmt.Sprintf("holey-%d-%x", id, rnd.U64())), make([]byte, 24576)...)
+		bts = append(bts, []byte("-tail")...)
+		g.Nodes = append(g.Nodes, &dag.Node{ID: id, Kind: dag.KBlob, Bytes: bts, Subject: -1, TwinOf: -1,
+			Desc: ocispec.Descriptor{MediaType: ocispec.MediaTypeImageLayer, Digest: digest.FromBytes(bts), Size: int64(len(bts))}})
+		h.Holey = id
 	}
 	h.Graph = g.Encode()
 	tier := "q"
@@ -1143,6 +1396,14 @@ func replay(path string) {
 					panic(err)
 				}
 			}
+			if v, ok := c["bad"]; ok && v != "null" {
+				if err := json.Unmarshal([]byte(v), &h.Bad); err != nil {
+					panic(err)
+				}
+			}
+			if v, ok := c["holey"]; ok {
+				h.Holey, _ = strconv.Atoi(v)
+			}
 			if err := json.Unmarshal([]byte(c["ops"]), &h.Ops); err != nil {
 				panic(err)
 			}
@@ -1158,6 +1419,19 @@ func replay(path string) {
 	}
 }
 
+var coverageFloor = []string{
+	"checkpoint:synced", "checkpoint:unsynced", "cfg:autosave=false,autogc=false", "cfg:autosave=false,autogc=true",
+	"cfg:autosave=true,autogc=false", "cfg:autosave=true,autogc=true",
+	"reopen:oci.New", "reopen:NewFromFS(os.DirFS)", "reopen:NewFromFS(fstest.MapFS)", "reopen:NewFromTar",
+	"tar:style0", "tar:style1", "tar:style2", "tar:style3", "tar:style4", "tar:style5", "tar:style6(", "tar:style7(",
+	"tar:style8(", "tar:style9(", "tar:style10(", "tar:sparse-member-archived", "tar:blob-name-over-100-bytes",
+	"op:P:ok", "op:Q:ok", "op:P:exists", "op:P:badcontent", "op:T:ok", "op:T:notfound", "op:T:invalidref", "op:U:ok", "op:U:notfound",
+	"op:V:invalidref", "op:A:ok", "op:D:ok", "op:D:notfound", "op:G:ok", "op:S:ok", "op:R:ok", "op:I:ok",
+	"op:Xv", "op:Xi", "op:Xa", "op:Xf", "tag:foreign-digest-reference", "tag:invalid-utf8-reference",
+	"gc:with-untagged-subject-chains", "delete:autogc-with-stored-referrer",
+	"tarfs:format0", "tarfs:format1", "tarfs:format2", "unjudged:tag-with-inconsistent-descriptor",
+}
+
 func main() {
 	run = common.Start("C08")
 	defer run.Finish()
@@ -1166,7 +1440,7 @@ func main() {
 		replay(run.Replay)
 		return
 	}
-	n := run.Scale(1200, 10000)
+	n := run.Scale(1200, 8000)
 	for i := 0; i < n; i++ {
 		generateHistory(run.Seed, i, run.Thorough())
 	}
@@ -1174,5 +1448,24 @@ func main() {
 	trnd := common.NewRand(common.NewRand(run.Seed).U64() ^ 0x7a7f5)
 	for i := 0; i < run.Scale(1500, 30000); i++ {
 		tarfsCase(trnd)
+	}
+	// coverage floors: a run in which one of the streams produced nothing is a failed run
+	var missing []string
+	for _, pre := range coverageFloor {
+		n := 0
+		for k, v := range run.Dist {
+			if strings.HasPrefix(k, pre) {
+				n += v
+			}
+		}
+		if n == 0 {
+			missing = append(missing, pre)
+		}
+	}
+	if len(missing) > 0 {
+		run.Extra["coverage_floor_missing"] = missing
+		run.Finish()
+		fmt.Fprintln(os.Stderr, "coverage floor not reached, no case of:", strings.Join(missing, ", "))
+		os.Exit(3)
 	}
 }
